@@ -128,3 +128,25 @@ Example c18_example :
   map (fun r => aget 4 (rib_entries (rrib r))) (run S (concat (repeat ex_round 3))) = [Some (8, 3); Some (6, 1); Some (7, 2)] /\
   converged (run S (concat (repeat ex_round 17))) = true.
 Proof. vm_compute. repeat split; reflexivity. Qed.
+
+(* non-vacuity of asynchronous rounds: two routers; router 1 fetches, then router 2 processes the advertisement
+   router 1 had at the START of the round — stale (router 1 has changed since) but generated within the round. *)
+Definition ex2_S0 : net := run [] [RouterUp 1; RouterUp 2; NbrUp 1 2; NbrUp 2 1].
+Definition ex2_adv0 : list adv_entry :=
+  match getr ex2_S0 1 with Some r => advert (rrib r) | None => [] end.
+Definition ex2_round : list event := [Fetch 1 2; Deliver 2 1 ex2_adv0].
+
+Example c18_async_example :
+  around (topo_of ex2_S0) ex2_S0 ex2_round /\
+  (forall r, getr (run ex2_S0 [Fetch 1 2]) 1 = Some r -> advert (rrib r) <> ex2_adv0) /\
+  maxdist (topo_of ex2_S0) = 1%nat /\ converged ex2_S0 = false /\ converged (run ex2_S0 ex2_round) = true.
+Proof.
+  split; [|split; [|vm_compute; repeat split; reflexivity]].
+  - split.
+    + simpl. split; [exact I|]. split; [|exact I].
+      exists ex2_S0. eexists. split; [right; left; reflexivity|]. split; [vm_compute; reflexivity | vm_compute; reflexivity].
+    + intros i j He. unfold E, nb in He. vm_compute in He.
+      destruct i as [|[p|p|]]; try destruct p; try (destruct He; fail);
+        destruct He as [<- | []]; vm_compute; reflexivity.
+  - intros r Hr. vm_compute in Hr. inversion Hr; subst r. vm_compute. discriminate.
+Qed.
